@@ -446,6 +446,18 @@ def Obs.violations (o : Obs) : List String :=
   (if !o.word.closed || o.otherExit || (o.drainedExits == 1 && !o.alive) then [] else ["drain-never-finishes"]) ++
   (if o.word.closed || o.drainedExits == 0 then [] else ["drained-without-drain"])
 
+/-- Round 4, the `ok-not-handled` clause where a later stop / kill cannot excuse a loss: observed at
+a moment when the live actor's task had run until it blocked (mailbox empty, nothing taken) and no
+stop / kill had been accepted so far — every send that had returned `Ok` by then is handled by then.
+Evaluated by the driver after every `rx run` that leaves the actor alive; proved of the model for
+every reachable state (`C02.ok_sends_are_handled_whenever_the_mailbox_is_quiet`). -/
+def quietViolations (okSoFar handledSoFar : List Nat) : List String :=
+  if okSoFar.all handledSoFar.contains then [] else ["ok-not-handled-at-quiescence"]
+
+/-- The live receiver has nothing left to do and was not stopped from outside. -/
+def quiet (s : Shared) : Bool :=
+  s.queue.isEmpty && s.taken.isNone && s.rxOpen && !s.rxStopped && !s.stoppedByOther
+
 def obsOf (g : G) : Obs :=
   { rets := g.sh.rets, handled := g.sh.handled, word := g.sh.word, drainedExits := g.sh.drainedExits,
     otherExit := g.sh.stoppedByOther, alive := g.sh.rxOpen }
